@@ -11,7 +11,7 @@
 (* the stop rule is StopRel's.  Verdicts are total: a failed clause is     *)
 (* recorded as <<run id, clause>> and the replay goes on.                  *)
 (***************************************************************************)
-EXTENDS PopRel, StopRel, Json, IOUtils, TLC
+EXTENDS PopRel, StopRel, AlgoRel, Json, IOUtils, TLC
 
 Recs == ndJsonDeserialize(IOEnv.TRACE_FILE)
 
@@ -64,6 +64,20 @@ FailsEnter(r) ==
     \cup Unless(r.repro = 1, "C07.repro")      \* the same key on a second fresh instance gave a different result
     \cup Unless(r.reuse = 1, "C08.reuse")      \* ... and once more on that used instance
 
+\* extensions (AlgoRel): phase k >= 2 is optimization_step number k - 1, which started from snapshot k - 1
+Pairs(s) == [j \in DOMAIN s |-> <<s[j][1], s[j][2]>>]
+FailsExt(r, k) ==
+    IF k < 2 \/ k - 1 > Len(r.cyc) \/ k > Len(r.aux) THEN {}
+    ELSE LET prev == Pairs(r.snaps[k - 1])
+             new == Pairs(r.snaps[k])
+             ax == r.aux[k]
+         IN  Unless(r.cyc[k - 1] = k - 1, "X.cycle")
+             \cup Unless(Len(prev) = 0 \/ LeaderOK(<<r.lead[k - 1][1], r.lead[k - 1][2]>>, prev), "X.leader")
+             \cup Unless(~r.slotwise \/ Slotwise([j \in DOMAIN prev |-> prev[j][2]], [j \in DOMAIN new |-> new[j][2]]), "X.slotwise")
+             \cup Unless(ax.kind # "greywolf" \/ GreyWolfOK(Pairs(ax.a), new), "X.greywolf")
+             \cup Unless(ax.kind # "pso" \/ PsoOK(IF k = 2 THEN prev ELSE Pairs(r.aux[k - 1].a), new, Pairs(ax.a)), "X.pso")
+             \cup Unless(ax.kind # "bee" \/ BeeOK(ax.t, ax.limit), "X.bee")
+
 FailsPhase(r, k, old) ==
     LET new == PopOf(r.snaps[k])
         mem == Mem(r)
@@ -73,6 +87,7 @@ FailsPhase(r, k, old) ==
         \cup Unless(EvaluatedPop(Seen(r), new), "C02.evaluated")
         \cup Unless(k = 1 \/ ~r.elitist \/ Len(old) = 0 \/ Len(new) = 0 \/ Monotone(old, new), "C17.mono")
         \cup Unless(k > Len(r.calls) \/ ArgsInSpace(mem, r.calls[k]), "C05.arg")
+        \cup FailsExt(r, k)
 
 FailsReturn(r) ==
     LET mem == Mem(r)
